@@ -151,6 +151,18 @@ pub fn gen(seed: u64, thorough: bool) {
             }
         }
     }
+    // every byte that needs an escape (and its neighbours) in a key and in a string value, alone and with padding on both sides of
+    // the 32-byte vector width (keys and values are written by different code paths)
+    for b in (0u8..=0x21).chain([0x22u8, 0x5c, 0x7f, 0x2f]) {
+        for pad in [0usize, 3, 15, 31, 32, 40] {
+            let esc = format!("\\u{:04x}", b);
+            let p = "p".repeat(pad);
+            let k = format!("{{\"{p}{esc}{p}\":0}}");
+            out.line(&format!("c06 {}", hex(k.as_bytes())));
+            let v = format!("[\"{p}{esc}{p}\"]");
+            out.line(&format!("c06 {}", hex(v.as_bytes())));
+        }
+    }
     let n = if thorough { 40000 } else { 3000 };
     let cfg = GenCfg { max_depth: 5, max_items: 6, ws: true, dup_keys: true, long_strings: true };
     for _ in 0..n {
